@@ -239,6 +239,10 @@ theorem row_good (m : Mgr) (s : Stanza) : (rowOf m).good s = true := by
   case transferDecline => exact transfer_good _ _ _ s
   case transferJob => exact transfer_good _ _ _ s
   case transferJobOpen => exact transfer_good _ _ _ s
+  case transferAcceptRO => exact transfer_good _ _ _ s
+  case transferJobOpenFail => exact transfer_good _ _ _ s
+  case transferJobOpenShort => exact transfer_good _ _ _ s
+  case transferJobFailed => exact transfer_good _ _ _ s
   case uploadRequest =>
     simp only [rowOf, Row.good, Row.run, uploadRequestBeh, Beh.goodFor]
     generalize headIs s .slot .upload = a
